@@ -1,6 +1,7 @@
 import RpmVerif.Driver.Common
 import RpmVerif.Model.Accessors
 import RpmVerif.Model.Utf8
+import RpmVerif.Spec.ScriptletTags
 /-! Driver for C05. Op `acc BYTES` → the same canonical accessor dump as harness/src/c05.rs.
 Errors are collapsed to `err` on both sides (the property only demands "an error").
 Op `get05 h|s TAGS BYTES` → the nine typed getters of `Header<T>` called directly, per tag.
@@ -27,7 +28,7 @@ def rscript (r : Out Acc.Scriptlet) : String :=
   | _ => "err"
 
 def scr (h : Header) (k : String) : Out Acc.Scriptlet :=
-  match scriptletTags.find? (·.1 == k) with
+  match RpmVerif.Spec.stdScriptletTags.find? (·.1 == k) with  -- rpm's table; = Gen.scriptletTags by C05.scriptlet_tags_standard
   | some (_, a, b, c) => getScriptlet h (a, b, c)
   | none => .err "table"
 
